@@ -327,7 +327,7 @@ def reader_correspondence(ctx, d, pkg, env, stats, quick):
 TOKNAMES = ["ID", "NUM", "KW", "OP", "WS", "EOL", "COMMENT", "STR", "AB"]
 PATTERNS = {"ID": ["[a-z]+", "[a-z][a-z0-9_]*", "[a-zA-Z_]+", "[a-z\\x00E0-\\x00FF]+"], "NUM": ["[0-9]+", "[0-9]+(\\.[0-9]+)?", "-?[0-9]+"],
             "KW": ["if|in|int", "while"], "OP": ["=+", "<=?", "\\+\\+?|-"], "WS": ["[ \\x09]+", " +"], "EOL": ["\\x0A", "\\x0D?\\x0A"],
-            "COMMENT": ["#[a-z ]*", "//[a-z]*"], "STR": ["'[a-z ]*'", "\\x22[a-z]*\\x22"], "AB": ["(ab)*c", "(ab)+", "a(bc)*d", "\\x03B1+", "[\\x03B1\\xFFFD]+", "\\x10FFFF|\\x0080+"]}
+            "COMMENT": ["#[a-z ]*", "//[a-z]*", "#[^\\x0A]*", "//.*"], "STR": ["'[a-z ]*'", "\\x22[a-z]*\\x22", "\\x22[^\\x22]*\\x22", "'[^']*'", "<.*>"], "AB": ["(ab)*c", "(ab)+", "a(bc)*d", "\\x03B1+", "[\\x03B1\\xFFFD]+", "\\x10FFFF|\\x0080+"]}
 LITERALS = ["if", "else", "=", "==", "(", ")", ";", "+", "in", "\\\\", "'"]
 
 
@@ -392,7 +392,14 @@ def gen_text(rng, dfa, maxtok, short):
             lx = random_lexeme(rng, dfa, maxtok)
             if lx:
                 parts.append(lx)
-        elif k < 0.8:
+        elif k < 0.78:
+            # a lexeme with a character from outside the automaton's alphabet in the middle of it: states that have a
+            # transition on every ASCII character (inside `[^"]*`, `.*`) still have none on these
+            lx = random_lexeme(rng, dfa, maxtok)
+            if lx and len(lx) >= 2:
+                i = rng.randrange(1, len(lx))
+                parts.append(lx[:i] + rng.choice(["é", "€", "世", "\u0080", "\U00010000", "\ufffd", "\u00a0", "\u2028"]) + lx[i:])
+        elif k < 0.86:
             parts.append(rng.choice(["?", "@", "é", "€", "x9", "=", "a", "ab", "abab", "~",
                                      # the first and last code point of every UTF-8 length, the neighbours of the surrogates, U+FFFD (what
                                      # decoders return for garbage - here a character like any other)
